@@ -30,6 +30,14 @@ CLAIMS = {
         technique="TLA+ state machine (Params.tla) model-checked by TLC; behaviours replayed into the real VarsManager (B1), counterexamples confirmed on the code",
         engine="tlc-replay",
     ),
+    "C17": dict(
+        category="fault_enumeration",
+        text="spec/Session.tla models one amplitude-model session: six kinds of temporary-override blocks (nesting up to 3), five derived computations as multi-step frames (partial weights, interference weights, fit fractions old/new method, factor iteration) and the fault actions Raise (an exception out of the innermost block or out of the k-th inner evaluation of a computation unwinds every open block) and Abandon (generator closed). TLC checks the invariant Transparent (no open block => parameter reads, active chains, flags equal the baseline) over every behaviour up to the depth bound, i.e. with a fault at every point. Every graph edge that returns to top level and TLC-simulated deep behaviours are executed on a real AmplitudeModel (real with-blocks unwound with the injected exception, real computations with DecayGroup.sum_amp raising at the k-th call), and after every return to top level parameter values, active chains, mask flags, configuration entry and the density of probe events are compared with the baseline.",
+        design_ref="DESIGN.md 3.1, 5/C17",
+        note="Trusted: TLC; fault = Python exception raised by the inner evaluation or inside the with-body; one probe parameter, three chains with one resonance each, 6 probe events; depth/nesting bounds (quick depth 6/3 for the invariant and graph, simulation depth 14; thorough 8/4, 24); quick tier replays a seeded sample of the edges.",
+        technique="TLA+ session model with fault actions model-checked by TLC; behaviours with injected faults replayed on a real AmplitudeModel (B1)",
+        engine="tlc-replay",
+    ),
 }
 
 NOT_YET = "check not built yet in this round (planned in DESIGN.md 5); not claimed until its specification is bound to the code"
